@@ -324,6 +324,10 @@ def run(ctx: Ctx) -> None:
                 root = "root.json"
             exp = {key: 998, "q": 1, "z": 2} if own else {other: 1000, key: 1000, "q": 1, "z": 2}
             cases.append({"kind": "fixed", "files": files, "root": root, "expect": exp})
+    # include chains of 9 ... 14 files across alternating folders: every key of every reachable file is present
+    for n in (9, 10, 11, 12, 14):
+        files = {("d/" if i % 2 else "") + f"c{i}": (f"#include '{'../' if i % 2 else 'd/'}c{i + 1}'\n" if i < n else "") + f"k{i} {i};\n" for i in range(n + 1)}
+        cases.append({"kind": "fixed", "files": files, "root": "c0", "expect": {f"k{i}": i for i in range(n + 1)}})
     process(ctx, cases)
 
 
